@@ -48,7 +48,7 @@ def run(tier):
         sem = sorted(set(sem))
         if tier == 'quick' and len(sem) > 6000:
             sem = rng.sample(sem, 6000)
-        progs = _rel.programs(out, tier, PROP, versions, 1500 if tier == 'thorough' else 150, rng)
+        progs = _rel.programs(out, tier, PROP, versions, 1500 if tier == 'thorough' else 150, rng, literals=True)
         traces = []
         accepted = 0
         for v in versions:
